@@ -37,7 +37,7 @@ func init() {
 		Race:      true,
 		RaceFiles: []string{"transport.go", "csession.go", "channel.go"},
 		Shards:    shards(8, 16),
-		Timeout:   timeouts(4*time.Minute, 40*time.Minute),
+		Timeout:   timeouts(12*time.Minute, 90*time.Minute),
 		MinEvals:  200,
 		Required:  []string{"fault:read-error", "fault:read-eof", "fault:peer-close", "fault:write-fail", "fault:ctx-cancel", "fault:call-cancel", "hostile:unknown-tag", "hostile:repeated-tag", "hostile:wrong-type", "hostile:abnormal-frame", "hostile:garbage", "hostile:overlong-rread", "hostile:dir-data", "fault:local-failure", "fault:read-neterror", "fault:deadline-then-plain", "fault:cancel-while-writer-busy", "later_call_checked", "pending_calls_returned"},
 		Run:       runC12,
